@@ -946,8 +946,14 @@ def find_distributed_partition(
 
     sent_ary_to_name: dict[Array, str] = {}
     for ary in sent_arrays:
-        pid = stored_ary_to_part_id[ary]
-        name = gen_array_name(ary)
+        if ary in received_arrays:
+            # Received data being sent on unchanged: the name (and part) of
+            # the receive cannot double as a part output.
+            pid = mso_ary_to_part_id[ary]
+            name = array_name_gen()
+        else:
+            pid = stored_ary_to_part_id[ary]
+            name = gen_array_name(ary)
         sent_ary_to_name[ary] = name
         name_to_output_per_part[pid][name] = ary
 
